@@ -30,7 +30,7 @@ def _seq_of(eng, v, n, st):
                 return V(TSeq(v.ty.elem, nodup=True), SQ.unit(TSeq(v.ty.elem).sort(), t0.arg(1)))
             order = eng.fresh(st, TSeq(v.ty.elem, nodup=True), "setorder")
             x = z3.Const("so!x", v.ty.elem.sort())
-            st.assume(z3.ForAll([x], SQ.has(order.t, x) == z3.IsMember(x, v.t), patterns=[SQ.has(order.t, x)]))
+            st.assume(SQ.forall([x], SQ.has(order.t, x) == z3.IsMember(x, v.t), patterns=[SQ.has(order.t, x)]))
             return order
     if isinstance(v, tuple) and v and v[0] == "range":
         lo, hi = v[1], v[2]
@@ -39,6 +39,15 @@ def _seq_of(eng, v, n, st):
         j = z3.Int("rg!j")
         st.assume(SQ.length(r.t) == ln)
         st.assume(z3.ForAll([j], z3.Implies(z3.And(0 <= j, j < ln), SQ.at(r.t, j) == lo + j)))
+        return r
+    if isinstance(v, tuple) and v and v[0] == "values":
+        d = v[1]
+        s_ = d.ty.sort()
+        ks = s_.keys(d.t)
+        r = eng.fresh(st, TSeq(d.ty.v), "values")
+        j = z3.Int("vl!j")
+        st.assume(SQ.length(r.t) == SQ.length(ks))
+        st.assume(SQ.forall([j], z3.Implies(z3.And(0 <= j, j < SQ.length(ks)), SQ.at(r.t, j) == z3.Select(s_.val(d.t), SQ.at(ks, j))), patterns=[SQ.at(r.t, j)]))
         return r
     if isinstance(v, tuple) and v and v[0] in ("emptylist",):
         return v
@@ -113,7 +122,7 @@ def b_set(eng, args, kw, n, st):
     if isinstance(v, V) and isinstance(v.ty, TSeq):
         s = eng.fresh(st, TSet(v.ty.elem), "set")
         x = z3.Const("st!x", v.ty.elem.sort())
-        st.assume(z3.ForAll([x], z3.IsMember(x, s.t) == SQ.has(v.t, x), patterns=[z3.IsMember(x, s.t), SQ.has(v.t, x)]))
+        st.assume(SQ.forall([x], z3.IsMember(x, s.t) == SQ.has(v.t, x), patterns=[z3.IsMember(x, s.t), SQ.has(v.t, x)]))
         return s
     if isinstance(v, tuple) and not (v and isinstance(v[0], str)):
         if not v:
